@@ -75,7 +75,7 @@ CLAIMED = {
              "disk at every quiescent point for every sequence of loads, in-place modifications, evictions, commits and aborts, so a rebuilt server reads the same; the name cache of a directory (M8e: dcache map, Lastoff hint, AddNameDir's slot choice) holds "
              "exactly the live slots in every state reachable by lookups, insertions, removals, evictions and aborted transactions, and the directory with its cache refines a plain "
              "map name -> inode number (name_cache_is_the_directory, directory_refines_a_plain_map). Ties: codec "
-             "correspondence; dcache correspondence (reply, Lastoff, whole cache map and slots after every step of real transactions on a real directory inode); coherence oracle at quiescent points (cached inodes, name caches, allocators vs logical disk); API dumps of running vs cleanly restarted vs recovered-from-image server.",
+             "correspondence; dcache correspondence (reply, Lastoff, whole cache map and slots after every step of real transactions on a real directory inode); atxn correspondence (allocator and on-disk bitmap after every step of interleaved real alloctxn transactions, model M8b); coherence oracle at quiescent points (cached inodes, name caches, allocators vs logical disk); API dumps of running vs cleanly restarted vs recovered-from-image server.",
         design_ref="DESIGN.md 5/C10", note="trusted: Lean kernel, hand-written codec and cache-protocol models, harness (reads private fields by reflection)",
         technique="Lean 4 proof (codec bijection, cache-protocol invariant) + correspondence + restart/recovery dump comparison"),
     "C11": dict(category="proof",
